@@ -1,0 +1,85 @@
+//go:build verif
+// +build verif
+
+package storage
+
+// Verification hooks (build tag `verif`): accessors used by the correspondence harness in /verif.
+// Add-only; nothing here is compiled without the tag.
+
+import (
+	"github.com/marekgalovic/anndb/cluster"
+	"github.com/marekgalovic/anndb/index"
+	pb "github.com/marekgalovic/anndb/protobuf"
+	"github.com/marekgalovic/anndb/storage/raft"
+	"github.com/marekgalovic/anndb/storage/wal"
+	"github.com/marekgalovic/anndb/utils"
+
+	badger "github.com/dgraph-io/badger/v2"
+	uuid "github.com/satori/go.uuid"
+)
+
+// VerifPlacement runs Allocator.getPartitionsNodeIds over the members of conn (no allocator loop is started).
+func VerifPlacement(conn *cluster.Conn, partitionCount, replicationFactor uint) [][]uint64 {
+	a := &Allocator{clusterConn: conn}
+	return a.getPartitionsNodeIds(partitionCount, replicationFactor)
+}
+
+// VerifNewDataset builds a Dataset (and its partitions) exactly as the catalogue does, without a DatasetManager.
+func VerifNewDataset(meta pb.Dataset, db *badger.DB, transport *raft.RaftTransport, conn *cluster.Conn) (*Dataset, error) {
+	id, err := uuid.FromBytes(meta.GetId())
+	if err != nil {
+		return nil, err
+	}
+	return newDataset(id, meta, db, transport, conn, nil)
+}
+
+func (this *Dataset) VerifPartitionCount() int         { return len(this.partitions) }
+func (this *Dataset) VerifPartitionId(i int) uuid.UUID { return this.partitions[i].id }
+func (this *Dataset) VerifIndex(i int) *index.Hnsw     { return this.partitions[i].index }
+func (this *Dataset) VerifNotificator(i int) *utils.Notificator {
+	return this.partitions[i].notificator
+}
+func (this *Dataset) VerifClose() { this.close() }
+
+// VerifOwnerIndex is the position of the partition the dataset routes id to.
+func (this *Dataset) VerifOwnerIndex(id uuid.UUID) int {
+	p := this.getPartitionForId(id)
+	for i, q := range this.partitions {
+		if p == q {
+			return i
+		}
+	}
+	return -1
+}
+
+// VerifLoadRaft starts the partition's raft group on this node (as the allocator does).
+func (this *Dataset) VerifLoadRaft(i int, nodeIds []uint64) error {
+	return this.partitions[i].loadRaft(nodeIds)
+}
+func (this *Dataset) VerifUnloadRaft(i int) error     { return this.partitions[i].unloadRaft() }
+func (this *Dataset) VerifRaft(i int) *raft.RaftGroup { return this.partitions[i].raft }
+
+// VerifWrapWAL substitutes the partition's log store before raft is loaded (crash/fault injection).
+func (this *Dataset) VerifWrapWAL(i int, wrap func(wal.WAL) wal.WAL) {
+	this.partitions[i].wal = wrap(this.partitions[i].wal)
+}
+
+// VerifApply feeds one committed log entry to the partition state machine, as the raft apply loop does.
+func (this *Dataset) VerifApply(i int, data []byte) error { return this.partitions[i].process(data) }
+func (this *Dataset) VerifSnapshot(i int) ([]byte, error) { return this.partitions[i].snapshot() }
+func (this *Dataset) VerifRestore(i int, data []byte) error {
+	return this.partitions[i].processSnapshot(data)
+}
+
+// injected RPC clients for simulated remote nodes
+func (this *Dataset) VerifSetDataManagerClient(nodeId uint64, c pb.DataManagerClient) {
+	this.dataManagerClientsMu.Lock()
+	defer this.dataManagerClientsMu.Unlock()
+	this.dataManagerClients[nodeId] = c
+}
+
+func (this *Dataset) VerifSetSearchClient(nodeId uint64, c pb.SearchClient) {
+	this.searchClientsMu.Lock()
+	defer this.searchClientsMu.Unlock()
+	this.searchClients[nodeId] = c
+}
